@@ -2,6 +2,7 @@ package checks
 
 import (
 	"fmt"
+	"strings"
 	"testing"
 
 	"github.com/gittuf/gittuf/internal/policy"
@@ -75,6 +76,17 @@ func c11Stripped(idx int) int {
 	return (idx / n) * n // same D, G = none
 }
 
+// c11StrippedFor: the tag and file-rule families list one delegation-rule set
+// under c11ExtraG global-rule sets; policy 0 is the one without global rules.
+func c11StrippedFor(sc *e1Scenario, idx int) int {
+	if strings.HasPrefix(sc.Name, "C11/tags|") || strings.HasPrefix(sc.Name, "C11/file|") {
+		return 0
+	}
+	return c11Stripped(idx)
+}
+
+const c11ExtraG = 3 // none, unrelated threshold rule, matching threshold-1 rule
+
 func c11World(ms *memstore.Store) *hist.World { return c01World(ms) }
 
 func c11Menu(d int) func(h *hist.Hist, depth int) []hist.Event {
@@ -105,39 +117,122 @@ func c11Judge(sc *e1Scenario, h *hist.Hist, cps map[string][]int, col *evid.Coll
 	// global rules; accept(with G) must imply accept(without G)
 	hasGlobal := false
 	for _, ev := range h.Events {
-		if ev.Kind == "policy" && ev.Policy != c11Stripped(ev.Policy) {
+		if ev.Kind == "policy" && ev.Policy != c11StrippedFor(sc, ev.Policy) {
 			hasGlobal = true
 		}
 	}
-	if !hasGlobal || h.A.LastIndex(refMain) < 0 {
+	ref := sc.Refs[0]
+	if !hasGlobal || h.A.LastIndex(ref) < 0 {
 		return out
 	}
-	_, errG := policy.NewPolicyVerifier(h.MS).VerifyRefFull(world_ctx, refMain)
+	_, errG := policy.NewPolicyVerifier(h.MS).VerifyRefFull(world_ctx, ref)
 	ms := memstore.New()
 	s := hist.New(ms, sc.World(ms), sc.Policies)
 	for _, ev := range h.Events {
 		if ev.Kind == "policy" {
-			ev.Policy = c11Stripped(ev.Policy)
+			ev.Policy = c11StrippedFor(sc, ev.Policy)
 		}
 		if err := s.Apply(ev); err != nil {
 			col.Fail("stripped replay: " + err.Error())
 			return out
 		}
 	}
-	_, errD := policy.NewPolicyVerifier(ms).VerifyRefFull(world_ctx, refMain)
+	_, errD := policy.NewPolicyVerifier(ms).VerifyRefFull(world_ctx, ref)
 	col.Inc("evaluations")
 	col.Inc("monotonicity_pairs")
 	col.Class("%s/monotone/withG=%s/withoutG=%s", sc.Name, e1ErrClass(errG), e1ErrClass(errD))
 	if errG == nil && errD != nil {
 		col.Violation("C11:global-rule-weakens:delegation-rules-bypassed-when-any-global-rule-exists",
-			fmt.Sprintf("[%s] full(main) is accepted with the global rules declared but rejected (%s) by the delegation rules alone", h.Describe(), e1ErrClass(errD)),
-			e1Replay{Scenario: sc.Name, Events: h.Events, Mode: "monotonicity", Ref: refMain})
+			fmt.Sprintf("[%s] full(%s) is accepted with the global rules declared but rejected (%s) by the delegation rules alone", h.Describe(), ref, e1ErrClass(errD)),
+			e1Replay{Scenario: sc.Name, Events: h.Events, Mode: "monotonicity", Ref: ref})
 	}
 	if errG != nil && errD == nil {
 		col.Inc("global_rule_rejections")
 	}
 	rsl.ResetCacheForVerif()
 	return out
+}
+
+// ---- tags and file rules under global rules ----
+// The exhaustive verifier is also consulted when a tag object's own signature
+// is checked and by the trusted-verifier shortcut of file rules, so both paths
+// get (delegation rules x global rules) scenarios with the same two oracles.
+
+func c11TagPolicies() []*hist.PolicySpec {
+	tags := hist.RuleSpec{Name: "protect-tags", Patterns: []string{"git:refs/tags/*"}, Principals: []string{"P0", "P1"}, Threshold: 1}
+	gs := [][]hist.GlobalSpec{nil,
+		{{Name: "t2o", Kind: "threshold", Patterns: []string{"git:refs/heads/other"}, Threshold: 2}},
+		{{Name: "t1t", Kind: "threshold", Patterns: []string{"git:refs/tags/*"}, Threshold: 1}}}
+	out := []*hist.PolicySpec{}
+	for i, g := range gs {
+		p := stdPolicy(fmt.Sprintf("tags|g%d", i), map[string]hist.FileSpec{"targets": {Rules: []hist.RuleSpec{mainRule([]string{"P0"}, 1), tags}}})
+		p.Global = g
+		out = append(out, p)
+	}
+	return out
+}
+
+func c11TagMenu(h *hist.Hist, depth int) []hist.Event {
+	evs := []hist.Event{}
+	for _, t := range []string{"tagA", "tagU"} {
+		for _, s := range []string{"P0", "P1", "U"} {
+			evs = append(evs, hist.Event{Kind: "push", Ref: refTag, Commit: t, Signer: s})
+		}
+	}
+	evs = append(evs, hist.Event{Kind: "approve", Ref: refTag, Commit: "tagA", Signers: []string{"P1"}},
+		hist.Event{Kind: "policy", Policy: 0}, hist.Event{Kind: "policy", Policy: 1}, hist.Event{Kind: "policy", Policy: 2})
+	return evs
+}
+
+func c11FileWorld(ms *memstore.Store) *hist.World {
+	w := hist.NewWorld()
+	w.AddCommit(ms, hist.CommitSpec{Name: "c0", Files: map[string]string{"a": "0", "b": "0"}, Signer: "P0"})
+	w.AddCommit(ms, hist.CommitSpec{Name: "aP0", Files: map[string]string{"a": "1", "b": "0"}, Parents: []string{"c0"}, Signer: "P0"})
+	w.AddCommit(ms, hist.CommitSpec{Name: "aU", Files: map[string]string{"a": "2", "b": "0"}, Parents: []string{"c0"}, Signer: "U"})
+	w.AddCommit(ms, hist.CommitSpec{Name: "bU", Files: map[string]string{"a": "0", "b": "1"}, Parents: []string{"c0"}, Signer: "U"})
+	w.AddCommit(ms, hist.CommitSpec{Name: "baU", Files: map[string]string{"a": "3", "b": "1"}, Parents: []string{"bU"}, Signer: "U"})
+	return w
+}
+
+func c11FilePolicies() []*hist.PolicySpec {
+	fileA := hist.RuleSpec{Name: "protect-a", Patterns: []string{"file:a"}, Principals: []string{"P0"}, Threshold: 1}
+	gs := [][]hist.GlobalSpec{nil,
+		{{Name: "t2o", Kind: "threshold", Patterns: []string{"git:refs/heads/other"}, Threshold: 2}},
+		{{Name: "t1m", Kind: "threshold", Patterns: []string{"git:" + refMain}, Threshold: 1}}}
+	out := []*hist.PolicySpec{}
+	for i, g := range gs {
+		p := stdPolicy(fmt.Sprintf("file|g%d", i), map[string]hist.FileSpec{"targets": {Rules: []hist.RuleSpec{mainRule([]string{"P0", "P1"}, 1), fileA}}})
+		p.Global = g
+		out = append(out, p)
+	}
+	return out
+}
+
+func c11FileMenu(h *hist.Hist, depth int) []hist.Event {
+	evs := []hist.Event{}
+	for _, c := range []string{"aP0", "aU", "bU", "baU"} {
+		for _, s := range []string{"P0", "P1", "U"} {
+			evs = append(evs, hist.Event{Kind: "push", Ref: refMain, Commit: c, Signer: s})
+		}
+	}
+	evs = append(evs, hist.Event{Kind: "policy", Policy: 0}, hist.Event{Kind: "policy", Policy: 1}, hist.Event{Kind: "policy", Policy: 2})
+	return evs
+}
+
+func c11ExtraScenarios(thorough bool) []*e1Scenario {
+	depth := 2
+	if thorough {
+		depth = 3
+	}
+	scs := []*e1Scenario{}
+	tp, fp := c11TagPolicies(), c11FilePolicies()
+	for g := 0; g < c11ExtraG; g++ {
+		scs = append(scs, &e1Scenario{Name: fmt.Sprintf("C11/%s", tp[g].Name), World: c01TagWorld, Policies: tp,
+			Prefix: []hist.Event{{Kind: "policy", Policy: g}}, Menu: c11TagMenu, Depth: depth + 1, Refs: []string{refTag}, Judge: c11Judge})
+		scs = append(scs, &e1Scenario{Name: fmt.Sprintf("C11/%s", fp[g].Name), World: c11FileWorld, Policies: fp,
+			Prefix: []hist.Event{{Kind: "policy", Policy: g}, {Kind: "push", Ref: refMain, Commit: "c0", Signer: "P0"}}, Menu: c11FileMenu, Depth: depth, Refs: []string{refMain}, Judge: c11Judge})
+	}
+	return scs
 }
 
 func c11Scenarios(thorough bool) []*e1Scenario {
@@ -166,9 +261,10 @@ func TestC11(t *testing.T) {
 		}
 	}()
 	scs := c11Scenarios(evid.Thorough())
+	scs = append(scs, c11ExtraScenarios(evid.Thorough())...)
 	col.Bound("events_after_prefix", scs[0].Depth)
 	col.Bound("policy_pairs", len(scs))
-	col.Rule("for each of 3 delegation-rule sets x 8 global-rule sets (threshold 1/2 on main, threshold 2 on an unrelated ref, block-force-pushes on main / on an unrelated ref, and two pairs) as initial policy: every sequence of <= %d events over {fast-forward and force push to main by P0/P1/unknown/unsigned, approvals of the next change by {P1},{P1,P2}, policy entries that remove / add a matching / add an unrelated global rule}; at every node (1) all verification modes vs the reference verifier with global rules, (2) monotonicity: the same history replayed with all global rules stripped must be accepted whenever it is accepted with them. A class is (scenario, mode or 'monotone', outcomes)", scs[0].Depth)
+	col.Rule("for each of 3 delegation-rule sets x 8 global-rule sets (threshold 1/2 on main, threshold 2 on an unrelated ref, block-force-pushes on main / on an unrelated ref, and two pairs) as initial policy: every sequence of <= %d events over {fast-forward and force push to main by P0/P1/unknown/unsigned, approvals of the next change by {P1},{P1,P2}, policy entries that remove / add a matching / add an unrelated global rule}; at every node (1) all verification modes vs the reference verifier with global rules, (2) monotonicity: the same history replayed with all global rules stripped must be accepted whenever it is accepted with them. Two more families with the same oracles cover the other places where the verifier list is consumed: recordings of a tag (tag object signed by an authorised / unknown key, entry by P0/P1/unknown, approvals) under {no, an unrelated, a matching} global rule, and pushes whose commits change a file protected by a file rule (commits signed by the authorised principal / an unknown key, touching the protected and an unprotected file) under the same three global-rule sets, <= 2-3 (thorough 3-4) events. A class is (scenario, mode or 'monotone', outcomes)", scs[0].Depth)
 	col.Assume("global rules declared in the repository's own root only (controller metadata needs cloning other repositories and is not in the alphabet); authenticated principals = principals of the policy state whose key signed the entry or the authorisation")
 	if e1Replayer(scs, col) {
 		return
